@@ -1,5 +1,5 @@
 """C03 - first committer wins (DESIGN §5 C03)."""
-from .facts import CheckerError, short_id
+from .facts import CheckerError, short_id, must_pass
 from .flow import FlowCx, find_aggregates, find_calls, callee_name
 from .cells import Effects
 from . import common
@@ -243,3 +243,12 @@ def plumbing(ctx, P, which):
                 "argument: validation works on the wrong or an empty set" % (which, setname), where=f.loc())
     ctx.ob("R7", "TransactionManager::%s#active-only" % which, guarded,
            what="TransactionManager::%s registers into a transaction without testing that it is Active" % which, where=f.loc())
+    # every successful return has registered the entity: an `Ok` reached without the insertion (an early return for
+    # some "nothing can use it" case) makes validation work on an incomplete set
+    I = {bi for bi, t in ins}
+    oks = {bi for (bi, si, rv, ln) in find_aggregates(f, "core::result::Result", "Ok")}
+    ctx.floor("R7", len(oks), 1, "Ok returns of TransactionManager::%s" % which)
+    ctx.ob("R7", "TransactionManager::%s#always-registers" % which, bool(I) and must_pass(f, 0, I, oks),
+           what="TransactionManager::%s can return Ok without inserting the entity into TxInfo.%s (a path to the success value "
+                "that skips the insertion): the transaction is validated against an incomplete %s" % (which, setname, setname.replace("_", " ")),
+           where=f.loc())
